@@ -4,6 +4,16 @@ import json, os, subprocess
 V = os.path.dirname(os.path.dirname(os.path.abspath(__file__)))
 
 CLAIMED = {
+ 'C01': dict(
+    text='Theorems for ARBITRARY bytes: (1) the file face (FileFace ctor, get_table_fn, TtfUtil::GetTableInfo) hands out only slices of the file - offset + length inside the file - and reads only the 12-byte '
+         'header and num_tables 16-byte entries; (2) cmap format 4 / 12 lookups never read outside the table once the subtable checks accepted; (3) the LZ4 decoder of compressed tables stays inside both '
+         'buffers and terminates; (4) bytecode the loader accepts never underflows the stack or runs off its end.  Tie B: synthetic sfnt files (table counts 0..41, offsets and lengths at / past the end, '
+         '32-bit extremes, truncation anywhere) through the real FileFace and the extracted container model, table by table; the cmap / lz4 / VM models are tied by the C13 / C14 / C07 checks.  Oracle: the '
+         'historical single-byte crashers of tests/fuzz-tests plus byte-mutated, directory-mutated and truncated copies of the shipped fonts x option bits 0..7 x {file, callbacks}: make, every gr_face_* / '
+         'gr_fref_* / gr_featureval_* query, destroy, under ASan+UBSan, LeakSanitizer after every case, watchdog.',
+    note='partial: the Silf / Pass / Glat / Gloc / Sill / name parsers are not modelled; their memory safety, termination and leak freedom are decided by sanitizers on explored inputs.',
+    technique='Coq proof (slice containment for the container; bounds safety of cmap, lz4, bytecode loader on arbitrary bytes) over hand models + differential correspondence on FileFace + sanitizer oracle over mutated fonts',
+    design='6/C01'),
  'C02': dict(
     text='Theorems over the control skeleton of the rule loop of Pass::runGraphite and the insert budget of Silf::runGraphite: (1) every run of the loop in which the measure '
          '"slots from the high-water mark to the end + remaining insert budget" never increases and decreases at each reset makes at most maxloop*(mu0+1) iterations (potential '
